@@ -62,7 +62,53 @@ Proof.
   - apply bind_notok_r. intros a s'. apply IH.
 Qed.
 
-(* the same with the invariant threaded through *)
+(* the same with an invariant threaded through: J is any property of states that every `pres` action keeps
+   (well-formedness, possibly together with facts that extension preserves, e.g. "variable b is declared as
+   a blob with fields K") *)
+Definition pres_closed (J : st -> Prop) : Prop :=
+  forall A (m : M A) s a s', pres m -> J s -> m s = Ok (a, s') -> J s'.
+
+Lemma wf_pres_closed : pres_closed wf.
+Proof. intros A m s a s' P W H. eapply P; eassumption. Qed.
+
+Lemma inv_pres_closed (Inv : st -> Prop) :
+  (forall s s', wf s -> ext s s' -> Inv s -> Inv s') -> pres_closed (fun s => wf s /\ Inv s).
+Proof.
+  intros HI A m s a s' P [W I] H. destruct (P _ _ _ W H) as [W' E']. split; [assumption|]. exact (HI s s' W E' I).
+Qed.
+
+Lemma bind_notok_rj (J : st -> Prop) (HJ : pres_closed J) {A B} (m : M A) (k : A -> M B) s :
+  pres m -> J s -> (forall a s', J s' -> notok (k a s')) -> notok (bind m k s).
+Proof.
+  unfold notok, bind. intros P W H a. destruct (m s) as [[x s']| | |] eqn:E; try discriminate.
+  apply H. eapply HJ; eassumption.
+Qed.
+
+Lemma iterM_notok_j (J : st -> Prop) (HJ : pres_closed J) {A} (f : A -> M unit) pre x post :
+  (forall y, pres (f y)) -> (forall s, J s -> notok (f x s)) -> forall s, J s -> notok (iterM f (pre ++ x :: post) s).
+Proof.
+  intros P H. induction pre as [|p pre IH]; intros s W; cbn [app iterM].
+  - apply bind_notok_l, H, W.
+  - apply (bind_notok_rj J HJ); [apply P|assumption|]. intros a s' W'. now apply IH.
+Qed.
+
+Lemma mapM_notok_j (J : st -> Prop) (HJ : pres_closed J) {A B} (f : A -> M B) pre x post :
+  (forall y, pres (f y)) -> (forall s, J s -> notok (f x s)) -> forall s, J s -> notok (mapM f (pre ++ x :: post) s).
+Proof.
+  intros P H. induction pre as [|p pre IH]; intros s W; cbn [app mapM].
+  - apply bind_notok_l, H, W.
+  - apply (bind_notok_rj J HJ); [apply P|assumption|]. intros a s' W'. apply bind_notok_l. now apply IH.
+Qed.
+
+Lemma foldM_notok_j (J : st -> Prop) (HJ : pres_closed J) {A B} (f : B -> A -> M B) pre x post :
+  (forall b y, pres (f b y)) -> (forall b s, J s -> notok (f b x s)) ->
+  forall b s, J s -> notok (foldM f (pre ++ x :: post) b s).
+Proof.
+  intros P H. induction pre as [|p pre IH]; intros b s W; cbn [app foldM].
+  - apply bind_notok_l, H, W.
+  - apply (bind_notok_rj J HJ); [apply P|assumption|]. intros a s' W'. now apply IH.
+Qed.
+
 Lemma bind_notok_rw {A B} (m : M A) (k : A -> M B) s :
   pres m -> wf s -> (forall a s', wf s' -> notok (k a s')) -> notok (bind m k s).
 Proof.
@@ -99,6 +145,8 @@ Section Propagation.
   Variable kinds : PositiveMap.t varkind.
   Variable G : grec.
   Hypothesis PG : gpres G.
+  Variable J : st -> Prop.
+  Hypothesis HJ : pres_closed J.
   Variable he : expr.
   Variable hs : stmt.
 
@@ -106,40 +154,40 @@ Section Propagation.
   Notation plug_e := (plug_e he hs).
   Notation plug_s := (plug_s he hs).
 
-  (* the filler is rejected in the given TypeCtx, in every well-formed state, with every fuel *)
-  Definition rej_e (ctx : tctx) : Prop := forall f s, wf s -> notok (r_expr (afix f) he ctx s).
-  Definition rej_s (ctx : tctx) : Prop := forall f s, wf s -> notok (r_stmt (afix f) hs ctx s).
+  (* the filler is rejected in the given TypeCtx, in every state satisfying the invariant, with every fuel *)
+  Definition rej_e_j (ctx : tctx) : Prop := forall f s, J s -> notok (r_expr (afix f) he ctx s).
+  Definition rej_s_j (ctx : tctx) : Prop := forall f s, J s -> notok (r_stmt (afix f) hs ctx s).
 
-  Notation at_e := (at_e rej_e rej_s).
-  Notation at_s := (at_s rej_e rej_s).
+  Notation at_e := (at_e rej_e_j rej_s_j).
+  Notation at_s := (at_s rej_e_j rej_s_j).
 
   Lemma block_notok R sp pre x post ctx : apres R ->
-    (forall s, wf s -> notok (r_stmt R x ctx s)) ->
-    forall s, wf s -> notok (expression_block G R sp (pre ++ x :: post) ctx s).
+    (forall s, J s -> notok (r_stmt R x ctx s)) ->
+    forall s, J s -> notok (expression_block G R sp (pre ++ x :: post) ctx s).
   Proof.
     intros PR H s W. unfold expression_block. apply bind_notok_l.
-    apply foldM_notok_w; [intros; prs| |assumption]. intros b s' W'. apply bind_notok_l, H, W'.
+    apply (foldM_notok_j J HJ); [intros; prs| |assumption]. intros b s' W'. apply bind_notok_l, H, W'.
   Qed.
 
-  Lemma call_args_notok R ctx x post (PR : apres R) (H : forall s, wf s -> notok (r_expr R x ctx s)) :
-    forall pre params r s, wf s -> length (pre ++ x :: post) = length params ->
+  Lemma call_args_notok R ctx x post (PR : apres R) (H : forall s, J s -> notok (r_expr R x ctx s)) :
+    forall pre params r s, J s -> length (pre ++ x :: post) = length params ->
       notok (call_args G R ctx (pre ++ x :: post) params r s).
   Proof.
     induction pre as [|p pre IH]; intros params r s W Hl; destruct params as [|q params];
       cbn [app length] in Hl; try discriminate; cbn [app call_args].
     - apply bind_notok_l, H, W.
-    - apply bind_notok_rw; [prs|assumption|]. intros [? ?] ? W1.
-      do 4 (apply bind_notok_rw; [prs|assumption|]; intros ? ? ?).
+    - apply (bind_notok_rj J HJ); [prs|assumption|]. intros [? ?] ? W1.
+      do 4 (apply (bind_notok_rj J HJ); [prs|assumption|]; intros ? ? ?).
       apply IH; [assumption|]. now injection Hl.
   Qed.
 
-  Ltac skip := apply bind_notok_rw; [prs|assumption|]; intros ? ? ?.
-  Ltac skip_pair := apply bind_notok_rw; [prs|assumption|]; intros [? ?] ? ?.
+  Ltac skip := apply (bind_notok_rj J HJ); [prs|assumption|]; intros ? ? ?.
+  Ltac skip_pair := apply (bind_notok_rj J HJ); [prs|assumption|]; intros [? ?] ? ?.
   Ltac here := apply bind_notok_l.
 
-  Lemma placement_gen : forall f,
-    (forall C ctx s, wf s -> at_e C ctx -> notok (r_expr (afix f) (plug_e C) ctx s)) /\
-    (forall C ctx s, wf s -> at_s C ctx -> notok (r_stmt (afix f) (plug_s C) ctx s)).
+  Lemma placement_j : forall f,
+    (forall C ctx s, J s -> at_e C ctx -> notok (r_expr (afix f) (plug_e C) ctx s)) /\
+    (forall C ctx s, J s -> at_s C ctx -> notok (r_stmt (afix f) (plug_s C) ctx s)).
   Proof.
     induction f as [|f [IHe IHs]]; split; intros C ctx s W Hat.
     - apply notok_fuel.
@@ -179,22 +227,22 @@ Section Propagation.
         destruct op; here; now apply IHe.
       + (* XIfC *)
         cbn [Ctx.plug_e Tc.afix astep r_expr]. unfold expr_body. here. here.
-        apply mapM_notok_w; [intros; prs| |assumption]. intros s1 W1. unfold if_branch. here. here. now apply IHe.
+        apply (mapM_notok_j J HJ); [intros; prs| |assumption]. intros s1 W1. unfold if_branch. here. here. now apply IHe.
       + (* XIfB *)
         cbn [Ctx.plug_e Tc.afix astep r_expr]. unfold expr_body. here. here.
-        apply mapM_notok_w; [intros; prs| |assumption]. intros s1 W1. unfold if_branch.
-        apply bind_notok_rw; [prs|assumption|]; intros ? ? ?. here.
+        apply (mapM_notok_j J HJ); [intros; prs| |assumption]. intros s1 W1. unfold if_branch.
+        apply (bind_notok_rj J HJ); [prs|assumption|]; intros ? ? ?. here.
         apply block_notok; [assumption| |assumption]. intros s2 W2. now apply IHs.
       + (* XCaseM *)
         cbn [Ctx.plug_e Tc.afix astep r_expr]. unfold expr_body. here. here. now apply IHe.
       + (* XCaseB *)
         cbn [Ctx.plug_e Tc.afix astep r_expr]. unfold expr_body. here. skip_pair. skip. skip. here.
-        apply foldM_notok_w; [intros; prs| |assumption]. intros [[? ?] ?] s1 W1. unfold case_branch.
-        do 3 (apply bind_notok_rw; [prs|assumption|]; intros ? ? ?). here.
+        apply (foldM_notok_j J HJ); [intros; prs| |assumption]. intros [[? ?] ?] s1 W1. unfold case_branch.
+        do 3 (apply (bind_notok_rj J HJ); [prs|assumption|]; intros ? ? ?). here.
         apply block_notok; [assumption| |assumption]. intros s2 W2. now apply IHs.
       + (* XCaseF *)
         cbn [Ctx.plug_e Tc.afix astep r_expr]. unfold expr_body. here. skip_pair. skip. skip.
-        apply bind_notok_rw; [prs|assumption|]; intros [[? ?] ?] ? ?. here. here.
+        apply (bind_notok_rj J HJ); [prs|assumption|]; intros [[? ?] ?] ? ?. here. here.
         apply block_notok; [assumption| |assumption]. intros s2 W2. now apply IHs.
       + (* XFun *)
         cbn [Ctx.plug_e Tc.afix astep r_expr]. unfold expr_body. here. skip_pair. here.
@@ -205,12 +253,12 @@ Section Propagation.
         skip.
         match goal with |- context [match ?l ++ ?r with _ => _ end] => destruct (l ++ r) end; auto with notok.
         skip. skip. here.
-        apply iterM_notok_w; [intros; prs| |assumption]. intros s1 W1. cbn [snd]. here. now apply IHe.
+        apply (iterM_notok_j J HJ); [intros; prs| |assumption]. intros s1 W1. cbn [snd]. here. now apply IHe.
       + (* XColl *)
         cbn [Ctx.plug_e Tc.afix astep r_expr]. unfold expr_body. here.
         destruct k.
-        * skip. here. apply mapM_notok_w; [intros; prs| |assumption]. intros s1 W1. here. now apply IHe.
-        * skip. skip. here. apply iterM_notok_w; [intros; prs| |assumption]. intros s1 W1. here. now apply IHe.
+        * skip. here. apply (mapM_notok_j J HJ); [intros; prs| |assumption]. intros s1 W1. here. now apply IHe.
+        * skip. skip. here. apply (iterM_notok_j J HJ); [intros; prs| |assumption]. intros s1 W1. here. now apply IHe.
     - (* statements *)
       pose proof (afix_pres kinds G PG f) as PA.
       destruct C; cbn [Ctx.at_s] in Hat.
@@ -241,40 +289,51 @@ Section Propagation.
         cbn [Ctx.plug_s Tc.afix astep r_stmt]. unfold stmt_body. here. now apply IHe.
   Qed.
 
-  Theorem placement_expr f C ctx s : wf s -> at_e C ctx -> notok (r_expr (afix f) (plug_e C) ctx s).
-  Proof. apply (proj1 (placement_gen f)). Qed.
+  Theorem placement_expr_j f C ctx s : J s -> at_e C ctx -> notok (r_expr (afix f) (plug_e C) ctx s).
+  Proof. apply (proj1 (placement_j f)). Qed.
 
-  Theorem placement_stmt f C ctx s : wf s -> at_s C ctx -> notok (r_stmt (afix f) (plug_s C) ctx s).
-  Proof. apply (proj2 (placement_gen f)). Qed.
+  Theorem placement_stmt_j f C ctx s : J s -> at_s C ctx -> notok (r_stmt (afix f) (plug_s C) ctx s).
+  Proof. apply (proj2 (placement_j f)). Qed.
 
   (* ---- whole programs *)
 
   (* a statement filler placed directly at the top level goes through `definition` exactly as an
      inner definition does; anything else panics at the top level (`Illegal outer statement`) *)
-  Definition rej_top : Prop := forall f s, wf s -> notok (outer_statement kinds G (afix f) hs ctx_new s).
+  Definition rej_top_j : Prop := forall f s, J s -> notok (outer_statement kinds G (afix f) hs ctx_new s).
 
-  Lemma outer_def_notok f name var kind t C sp s :
-    wf s -> at_e C ctx_new ->
+  Lemma outer_def_notok_j f name var kind t C sp s :
+    J s -> at_e C ctx_new ->
     notok (outer_statement kinds G (afix f) (SDefinition name var kind t (plug_e C) sp) ctx_new s).
   Proof.
     intros W Hat. pose proof (afix_pres kinds G PG f) as PA.
     unfold outer_statement. here. unfold definition.
     destruct (inside_pure ctx_new && negb (immutable kind)); auto with notok.
-    do 5 skip. here. now apply placement_expr.
+    do 5 skip. here. now apply placement_expr_j.
   Qed.
 
-  Lemma solve_notok f P start s :
-    wf s -> at_p rej_e rej_s rej_top P ->
+  Lemma solve_notok_j f P start s :
+    J s -> at_p rej_e_j rej_s_j rej_top_j P ->
     notok (solve kinds G (afix f) (plug_p he hs P) start s).
   Proof.
     intros W Hat. pose proof (afix_pres kinds G PG f) as PA.
     unfold solve. here. destruct P; cbn [plug_p at_p] in *.
-    - apply iterM_notok_w; [intros; now apply pres_outer_statement| |assumption].
-      intros s1 W1. cbv beta. now apply outer_def_notok.
-    - apply iterM_notok_w; [intros; now apply pres_outer_statement| |assumption].
+    - apply (iterM_notok_j J HJ); [intros; now apply pres_outer_statement| |assumption].
+      intros s1 W1. cbv beta. now apply outer_def_notok_j.
+    - apply (iterM_notok_j J HJ); [intros; now apply pres_outer_statement| |assumption].
       intros s1 W1. cbv beta. now apply Hat.
   Qed.
 End Propagation.
+
+(* the instances for plain well-formedness *)
+Definition rej_e kinds G he := rej_e_j kinds G wf he.
+Definition rej_s kinds G hs := rej_s_j kinds G wf hs.
+Definition rej_top kinds G hs := rej_top_j kinds G wf hs.
+
+Definition placement_gen kinds G (PG : gpres G) := placement_j kinds G PG wf wf_pres_closed.
+Definition placement_expr kinds G (PG : gpres G) := placement_expr_j kinds G PG wf wf_pres_closed.
+Definition placement_stmt kinds G (PG : gpres G) := placement_stmt_j kinds G PG wf wf_pres_closed.
+Definition solve_notok kinds G (PG : gpres G) := solve_notok_j kinds G PG wf wf_pres_closed.
+
 
 (* contexts whose hole is a statement hole need no hypothesis about the expression filler *)
 Lemma at_shole (Pe Ps : tctx -> Prop) :
